@@ -216,16 +216,19 @@ CLAIMS = {
    technique="Lean 4 restart lemma + idempotence/monotone re-run theorems over histories + compiled-program history correspondence",
    text="Lean 4 theorems for every aggregation-free serial program and every history run;run and run;push;run from any well-formed value: a second run() appends "
         "nothing (rerun_idempotent: row vectors literally unchanged) and a re-run after pushing facts into any relations equals the least model of the union "
-        "of all inputs (monotone_rerun, via lfp(lfp I ∪ J) = lfp(I ∪ J)). Tied by driving compiled programs through generated histories of run/push/dump.",
-   design_ref="DESIGN.md §8 C13", note=ENGINE_NOTE + " Idempotence of programs with aggregation and parallel re-runs are tied (compiled histories), not proved; F2 and F4 are fixed."),
+        "of all inputs (monotone_rerun, via lfp(lfp I ∪ J) = lfp(I ∪ J)). For EVERY stratified program with aggregation / negation: the stratified restart theorem "
+        "(restart_agg: a completed run from any value between the inputs and the stratified model ends in the stratified model) and its corollary rerun_idempotent_agg "
+        "(Props/C13Agg.lean; aggregators insensitive to input order, proved for the library ones: std_aggPermInvariant). Tied by driving compiled programs through generated histories of run/push/dump.",
+   design_ref="DESIGN.md §8 C13", note=ENGINE_NOTE + " Parallel re-runs are tied (compiled histories), not proved; F2 and F4 are fixed."),
  "C14": dict(
    engine="tie-B-engine",
    technique="Lean 4 theorems over an arbitrary deadline oracle (all crash points, repeated interruptions) + exhaustive crash-point correspondence under a virtual clock",
    text="Lean 4 theorems for an ARBITRARY deadline oracle over the clock readings: run_timeout=true leaves the full fixed point (timeout_true_complete); "
         "run_timeout=false leaves only derivable tuples, keeps every input and a well-formed value (timeout_false_sound); after any number of interruptions "
-        "at any points a completing call leaves exactly the least model of the original inputs (resume_complete). Tied by compiled programs with "
+        "at any points a completing call leaves exactly the least model of the original inputs (resume_complete); the same for every stratified program with "
+        "aggregation / negation relative to an uninterrupted reference run (timeout_false_sound_agg, resume_complete_agg, Props/C13Agg.lean). Tied by compiled programs with "
         "#![generate_run_timeout] under the virtual-clock hook, for EVERY crash point k of every case plus repeated interruptions.",
-   design_ref="DESIGN.md §8 C14", note=ENGINE_NOTE + " The wall clock is replaced by the hook (ascent::internal::verif); programs with aggregation are tied only."),
+   design_ref="DESIGN.md §8 C14", note=ENGINE_NOTE + " The wall clock is replaced by the hook (ascent::internal::verif); lattice programs: Props/C13L."),
  "C19": dict(
    engine="tie-C-ds",
    technique="Lean 4 refinement theorems (index model -> abstract multimap, all op sequences, all interleavings of atomic steps) + op-sequence correspondence (tie C)",
